@@ -259,7 +259,11 @@ class TaskGroup:
                     return
         finally:
             # Cancel everything including daemons
-            await self._cancel_tasks(self._pending.union(self.daemons))
+            tasks = self._pending.union(self.daemons)
+            while tasks:
+                await self._cancel_tasks(tasks)
+                # Tasks may have been added to the group while the others were being cancelled
+                tasks = {task for task in self._pending.union(self.daemons) if not task.done()}
             self.joined = True
 
     async def _cancel_tasks(self, tasks):
